@@ -6,6 +6,10 @@ import (
 	"time"
 
 	"github.com/marekgalovic/anndb/cluster"
+	pb "github.com/marekgalovic/anndb/protobuf"
+	badger "github.com/dgraph-io/badger/v2"
+	"github.com/golang/protobuf/proto"
+	etcdRaft "github.com/coreos/etcd/raft"
 
 	"github.com/marekgalovic/anndb/verifrt"
 )
@@ -101,6 +105,105 @@ func VerifC18() {
 	select {
 	case <-again:
 	case <-time.After(3 * time.Second):
+		verifrt.Tag("loop-dead")
+		verifrt.Assert(false, "control-plane-never-wedges")
+		return
+	}
+	verifrt.Reach("end")
+}
+
+// VerifC18Catalogue: the same question on the real catalogue. The catalogue
+// driver applies real log entries through the real DatasetManager.process
+// (createDataset / deleteDataset hold the catalogue lock while they hand the
+// partitions to the allocator), the membership driver adds and removes peers on
+// the real cluster.Conn, the real Allocator loop sits between them. Partitions
+// are hosted on the local node (first replica), so the loop's node-change
+// handler considers them, loads their raft groups (real etcd/raft) and proposes
+// replica changes to the catalogue group - a harness group that accepts
+// proposals and never commits them, like a catalogue group without a leader.
+// Every interleaving at synchronisation points within the preemption budget.
+func VerifC18Catalogue() {
+	verifrt.RaceDetect(verifrt.Bound("race", 0) == 1)
+	verifrt.Preemptions(verifrt.Bound("preempt", 1))
+	// the partitions' raft groups are passive (no goroutine of their own, nothing ever
+	// ready): what is explored is the interplay of the apply path, the allocator loop
+	// and the membership notifications
+	verifrt.Hook("raftnode", func(kind string, cfg *etcdRaft.Config, npeers int) etcdRaft.Node {
+		return &verifNode{proposals: make(chan verifProposal, 8)}
+	})
+	db, err := badger.Open(badger.DefaultOptions("").WithInMemory(true))
+	if err != nil {
+		panic(err)
+	}
+	n := verifNewCatalogueNode(db)
+	verifrt.Quiesce()
+	entry := func(t pb.DatasetManagerChangeType, data []byte) []byte {
+		out, err := proto.Marshal(&pb.DatasetManagerChange{Type: t, NotificationId: verifUUID(0xEE).Bytes(), Data: data})
+		if err != nil {
+			panic(err)
+		}
+		return out
+	}
+	create := func(ds int, rf uint32) []byte {
+		meta := &pb.Dataset{Id: verifDatasetId(ds).Bytes(), Dimension: 1, PartitionCount: 1, ReplicationFactor: rf, Space: pb.Space_Manhattan,
+			Partitions: []*pb.Partition{{Id: verifPartitionId(ds, 0).Bytes(), NodeIds: []uint64{1}}}}
+		data, err := proto.Marshal(meta)
+		if err != nil {
+			panic(err)
+		}
+		return entry(pb.DatasetManagerChangeType_DatasetManagerCreateDataset, data)
+	}
+	del := func(ds int) []byte {
+		return entry(pb.DatasetManagerChangeType_DatasetManagerDeleteDataset, verifDatasetId(ds).Bytes())
+	}
+	// an existing, under-replicated dataset (as after a restart with existing datasets)
+	if n.dm.process(create(0, 2)) != nil {
+		verifrt.Assert(false, "apply-never-fails")
+		return
+	}
+	verifrt.Quiesce()
+	catalogue := verifrt.Choose("catalogue", 3)
+	membership := verifrt.Choose("membership", 2)
+	done := make(chan int, 2)
+	go func() {
+		switch catalogue {
+		case 0:
+			n.dm.process(create(1, 1))
+		case 1:
+			n.dm.process(create(1, 2))
+			n.dm.process(del(1))
+		case 2:
+			n.dm.process(del(0))
+			n.dm.process(create(1, 1))
+		}
+		done <- 1
+	}()
+	go func() {
+		n.dm.clusterConn.AddNode(2, "n2:0")
+		if membership == 1 {
+			n.dm.clusterConn.AddNode(3, "n3:0")
+		}
+		done <- 2
+	}()
+	watchdog := time.After(30 * time.Second)
+	for i := 0; i < 2; i++ {
+		select {
+		case <-done:
+		case <-watchdog:
+			verifrt.Tag("drivers-blocked")
+			verifrt.Assert(false, "control-plane-never-wedges")
+			return
+		}
+	}
+	verifrt.Reach("drivers-returned")
+	again := make(chan int, 1)
+	go func() {
+		n.dm.process(create(2, 1))
+		again <- 1
+	}()
+	select {
+	case <-again:
+	case <-time.After(30 * time.Second):
 		verifrt.Tag("loop-dead")
 		verifrt.Assert(false, "control-plane-never-wedges")
 		return
